@@ -36,7 +36,7 @@ func (Engine) Info(prop string) core.Info {
 			Stub:         []string{"clock (testing/synctest)", "link (sim/pipe)", "remote station (ref/b2f reference peer + independent LZHUF decoder)", "mailbox handler (ref/mbox)"},
 			Assumptions:  []string{"the reference peer encodes B2F as described in docs/F6FBB-B2F and the public Winlink B2F description; behaviour of real RMS software beyond those documents is not simulated", "library runs on the Go 1.26.8 standard library"},
 			QuickRuns:    8000,
-			ThoroughRuns: 80000,
+			ThoroughRuns: 300000,
 			WatchdogSec:  120,
 		}
 	case "C02":
@@ -47,7 +47,7 @@ func (Engine) Info(prop string) core.Info {
 			Stub:            []string{"clock (testing/synctest)", "link with cut faults (sim/pipe)", "mailbox handlers (ref/mbox with storage-error knob)"},
 			Assumptions:     []string{"answer policies other than 'accept' and 'already received' are left to C01", "library runs on the Go 1.26.8 standard library"},
 			QuickRuns:       48,
-			ThoroughRuns:    3000,
+			ThoroughRuns:    160,
 			WatchdogSec:     900,
 			HangIsViolation: true,
 		}
@@ -71,7 +71,7 @@ func (Engine) Info(prop string) core.Info {
 			Stub:         []string{"clock (testing/synctest)", "link with in-flight edits (sim/pipe)", "sender in arm peer (ref/b2f)", "reference receiver (ref/b2f frame parser + independent LZHUF decoder)", "mailbox handlers (ref/mbox)"},
 			Assumptions:  []string{"alterations are enumerated for the first two transfers of a scenario", "library runs on the Go 1.26.8 standard library"},
 			QuickRuns:    128,
-			ThoroughRuns: 4000,
+			ThoroughRuns: 320,
 			WatchdogSec:  600,
 		}
 	case "C17":
@@ -94,7 +94,7 @@ func (Engine) Info(prop string) core.Info {
 			Stub:         []string{"clock (testing/synctest)", "link (sim/pipe)", "CMS (ref/b2f reference peer)", "mailbox handler (ref/mbox)"},
 			Assumptions:  []string{"the 64-byte salt copy in ref/b2f is correct (pinned by the two published test vectors)", "library runs on the Go 1.26.8 standard library"},
 			QuickRuns:    8000,
-			ThoroughRuns: 100000,
+			ThoroughRuns: 600000,
 			WatchdogSec:  120,
 		}
 	}
